@@ -222,9 +222,12 @@ def one_case(ctx, rng, idx):
     if kind in ('checkpoint', 'dump_to_path', 'dump_to_path_json') and idx % 2 == 0 and not any(l.startswith('join') for l, _ in pre + suf):
         re_cap = Capture(kind, ctx.scratch, 'r%d' % idx)
         def fresh_source(package):
-            # every run starts from the same data: steps may edit rows and descriptors in place
-            from datapackage import Package
-            yield Package(copy.deepcopy(desc))
+            # a source that *adds* its resources to whatever is upstream (as load and iterables do): every run starts from
+            # the same data - steps may edit rows and descriptors in place - and a source executed twice in one run shows
+            for r in copy.deepcopy(desc)['resources']:
+                package.pkg.add_resource(r)
+            yield package.pkg
+            yield from package
             for rws in rows:
                 yield iter(copy.deepcopy(rws))
         flow = Flow(fresh_source, *([f() for _, f in pre] + re_cap.steps() + [f() for _, f in suf]))
